@@ -152,6 +152,14 @@ type Genesis struct {
 	JailSecs    int64   `json:"jail_secs"`    // downtime_jail_duration
 	SlashDownBp int64   `json:"slash_down"`   // slash_fraction_downtime in 1/10000
 	SlashDblBp  int64   `json:"slash_double"` // slash_fraction_double_sign in 1/10000
+	Denom       string  `json:"denom,omitempty"` // bond denom of the chain ("" = "stake"); the model knows it as denom 0
+}
+
+func (g Genesis) denom() string {
+	if g.Denom == "" {
+		return "stake"
+	}
+	return g.Denom
 }
 
 func defaultGenesis() Genesis {
@@ -206,7 +214,7 @@ func NewChain(keys *Keys, g Genesis) (*Chain, *abci.ResponseInitChain, error) {
 		p := keys.priv(id)
 		addr := sdk.AccAddress(p.PubKey().Address())
 		accs = append(accs, authtypes.NewBaseAccount(addr, p.PubKey(), 0, 0))
-		bals = append(bals, banktypes.Balance{Address: addr.String(), Coins: sdk.NewCoins(sdk.NewInt64Coin("stake", 1_000_000_000_000))})
+		bals = append(bals, banktypes.Balance{Address: addr.String(), Coins: sdk.NewCoins(sdk.NewInt64Coin(g.denom(), 1_000_000_000_000))})
 	}
 	authGen := authtypes.NewGenesisState(authtypes.DefaultParams(), accs)
 	gs[authtypes.ModuleName] = cdc.MustMarshalJSON(authGen)
@@ -219,7 +227,7 @@ func NewChain(keys *Keys, g Genesis) (*Chain, *abci.ResponseInitChain, error) {
 	cdc.MustUnmarshalJSON(gs[stakingtypes.ModuleName], &stk)
 	stk.Params.MaxValidators = g.MaxVals
 	stk.Params.UnbondingTime = time.Duration(g.UnbondSecs) * time.Second
-	stk.Params.BondDenom = "stake"
+	stk.Params.BondDenom = g.denom()
 	gs[stakingtypes.ModuleName] = cdc.MustMarshalJSON(&stk)
 
 	var sl slashingtypes.GenesisState
@@ -237,7 +245,7 @@ func NewChain(keys *Keys, g Genesis) (*Chain, *abci.ResponseInitChain, error) {
 	mint.Params.InflationMax = sdkmath.LegacyZeroDec()
 	mint.Params.InflationMin = sdkmath.LegacyZeroDec()
 	mint.Params.InflationRateChange = sdkmath.LegacyZeroDec()
-	mint.Params.MintDenom = "stake"
+	mint.Params.MintDenom = g.denom()
 	gs[minttypes.ModuleName] = cdc.MustMarshalJSON(&mint)
 
 	var gov govv1.GenesisState
@@ -254,7 +262,7 @@ func NewChain(keys *Keys, g Genesis) (*Chain, *abci.ResponseInitChain, error) {
 	var gentxs []json.RawMessage
 	for i, tok := range g.Tokens {
 		id := keys.Pool[i]
-		msg, err := stakingtypes.NewMsgCreateValidator(id.Val.String(), id.ConsPriv.PubKey(), sdk.NewInt64Coin("stake", tok),
+		msg, err := stakingtypes.NewMsgCreateValidator(id.Val.String(), id.ConsPriv.PubKey(), sdk.NewInt64Coin(g.denom(), tok),
 			stakingtypes.NewDescription(fmt.Sprintf("val%d", i), "", "", "", ""),
 			stakingtypes.NewCommissionRates(sdkmath.LegacyNewDecWithPrec(1, 1), sdkmath.LegacyNewDecWithPrec(5, 1), sdkmath.LegacyNewDecWithPrec(1, 1)),
 			sdkmath.OneInt())
